@@ -60,6 +60,21 @@ def feed_as_lists_polls(st, spec, p=0.15):
     return n
 
 
+def arrival_polls(st, spec, p=0.2):
+    """Some polls receive the same data in another container shape (rows permuted, index labels not 0..n-1 or repeated, columns
+    permuted, an extra column in the feed).  The state invariants do not depend on any of that."""
+    n = 0
+    for o in spec["ops"]:
+        if o["k"] == "poll" and not o.get("feed_as_lists") and not o.get("inplace_feed") and not o.get("reuse_args") and st.feed.random() < p:
+            r = st.feed
+            o["arrival"] = dict(seed=int(r.integers(0, 2**31)),
+                                feed_index=[None, "all_equal", "repeating", "reversed_sparse"][int(r.integers(0, 4))],
+                                feed_extra_col=bool(r.random() < 0.3), feed_cols=bool(r.random() < 0.4),
+                                base_index=[None, None, "repeating", "reversed_sparse"][int(r.integers(0, 4))], base_cols=bool(r.random() < 0.4))
+            n += 1
+    return n
+
+
 def table_for(agg):
     return R.TABLE_NAME[agg]
 
